@@ -4,6 +4,7 @@ Property theorems only; helper lemmas are in `Lemmas/Hid.lean`, the model in `Mo
 (tied to passkey-transports/src/hid.rs by the correspondence stream), the specification in `Spec/Hid.lean`.
 All statements are unbounded in payload length, number of channels, and stream length.
 -/
+import PasskeyVerif.Generated.Hid
 import PasskeyVerif.Lemmas.Hid
 namespace PasskeyVerif.C16
 open PasskeyVerif.Hid
@@ -120,5 +121,30 @@ example (c : Chan) (msgs : List (Command × Bytes)) : Spec.sub c (Spec.streamOf 
 /-- … and the merge hypothesis by a two-packet merge of two channels. -/
 example (c d : Chan) (p q : Bytes) : Spec.IsMerge [(c, [p]), (d, [q])] [q, p] :=
   .step [(c, [p])] d q [] [] [p] (.step [] c p [] [(d, [])] [] (.done _ (by simp)))
+
+/-- **the framing constants of the model are those of the source as it is now** (regenerated on every run): packet
+size, header sizes, packet-type bit, the continuation-packet limit of `Message::new`, the command bytes; and the
+receiver's byte table knows exactly the commands the sender can frame -/
+theorem C16_constants :
+    Generated.Hid.maxPacketSize = maxPacket ∧ Generated.Hid.initHeaderSize = initHdr ∧ Generated.Hid.contHeaderSize = contHdr
+    ∧ Generated.Hid.packetDescriptorBit = descBit.toNat
+    ∧ Generated.Hid.commands.map (·.2) = Command.all.map (·.toByte.toNat)
+    ∧ (∀ b : Fin 256, (Generated.Hid.commandOfByte.any (·.1 == b.val)) = (Command.ofByte (UInt8.ofNat b.val)).isSome)
+    ∧ (Generated.Hid.commandOfByte.all (fun e => Generated.Hid.commands.any (fun c => c.1 == e.2 && c.2 == e.1))) = true
+    ∧ (Generated.Hid.commands.all (fun c => Generated.Hid.commandOfByte.any (fun e => c.1 == e.2 && c.2 == e.1))) = true
+    ∧ (∀ (ch : Chan) (cmd : Command) (data : Bytes), (Msg.new ch cmd data).isSome
+        = decide (data.length ≤ 65535 ∧ ¬(data.length - initMax > 0 ∧ (data.length - initMax) / contMax + 1 > Generated.Hid.maxContinuationCount))) := by
+  refine ⟨rfl, rfl, rfl, rfl, by decide, by decide +kernel, by decide, by decide, ?_⟩
+  intro ch cmd data
+  unfold Msg.new Generated.Hid.maxContinuationCount
+  by_cases h1 : data.length > 65535
+  · simp [h1]; omega
+  · simp only [h1, if_false]
+    by_cases h2 : data.length - initMax > 0 ∧ (data.length - initMax) / contMax + 1 > 128
+    · simp [h2]
+    · simp only [h2, if_false, Option.isSome_some]
+      have : data.length ≤ 65535 := by omega
+      simp [this, h2]
+
 
 end PasskeyVerif.C16
